@@ -244,6 +244,11 @@ def main(run, tier):
     run.floor = 150
     from . import printfwd
     printfwd.add(run, tier)
+    # the convenience wrappers of factory.py (contracts/factory.py): es5.pretty_print(source, ...) parses once and hands every positional
+    # and keyword argument but with_comments to the printer unchanged
+    from ..e1run import verify_functions as _vff
+    import contracts.factory as _cfac
+    _vff(run, _cfac.build(importlib.import_module('calmjs.parse.factory')), {}, {}, tier=tier)
     # a printer leaves nothing behind, and no printer object or table is shared between calls (ownership obligations of C14):
     # the depth argument below is per printer
     from .c14 import frame_obligations as _fo
